@@ -135,6 +135,11 @@ class C04(Prop):
                      'history; executable spec shared with a differential correspondence check',
     }
 
+    def extract_tables(self, repo):
+        # translator tie (DESIGN D.2a 2e): verdict / stop-control code as tables and canonical skeletons
+        from harness.pyres2lean import emit_c04
+        return {'TTV/Generated/ResCtlSrc.lean': emit_c04(repo)}
+
     # ----- implementation side
     def observe(self, g):
         ff = getattr(g.root, 'failfast', None)
